@@ -281,6 +281,14 @@ fn check(id: &str, tier: Tier) -> i32 {
                         infra.push(format!("worker {} hung; the rest of its shard was not explored", shard));
                     }
                     (code, crash, hang) => {
+                        // keep the whole case for diagnosis (an inconclusive run is not a verdict)
+                        if let Some((sig, section, case)) = crash.as_ref().or(hang.as_ref()) {
+                            let _ = std::fs::create_dir_all("/verif/evidence/inconclusive");
+                            let _ = std::fs::write(
+                                format!("/verif/evidence/inconclusive/{}-{}-shard{}.json", id, section, shard),
+                                serde_json::to_string_pretty(&serde_json::json!({"property": id, "what": sig, "section": section, "case": case})).unwrap_or_default(),
+                            );
+                        }
                         let c = crash.or(hang).map(|(sig, section, case)| format!(" [{} in {}: {}]", sig, section, case.to_string().chars().take(300).collect::<String>())).unwrap_or_default();
                         infra.push(format!("worker {} ended abnormally (exit {:?}){}", shard, code, c));
                     }
